@@ -127,7 +127,8 @@ def run_session(rnd, w, dumps, kinds, gen_cfg, nacts=14, max_gens=4):
         live = [i for i, g in enumerate(gens) if g[0] is not None and i != avoid]
         if not live:
             return
-        gi = rnd.choice(live)
+        unfinished = [i for i in live if gens[i][3]]          # a listing left half read, if there is one
+        gi = rnd.choice(unfinished or live)
         gens[gi][0] = None                  # the last reference goes away: the generators are finalised now
         gens[gi][3] = False
         import gc
@@ -196,7 +197,8 @@ def run_session(rnd, w, dumps, kinds, gen_cfg, nacts=14, max_gens=4):
             if failed() or not do_adv(gi):
                 break
 
-    scenario = rnd.choice(['abandon', 'abandon', 'interleave', 'interleave', 'edit', 'edit', 'random', 'random', 'prepared', 'prepared'])
+    scenario = rnd.choice(['abandon', 'abandon', 'interleave', 'interleave', 'edit', 'edit', 'random', 'random', 'prepared', 'prepared', 'peek', 'peek'] +
+                          (['finalise'] * 3 if 'cs' in kinds else []))
     if rnd.random() < 0.2:
         do_badopen()
     if scenario == 'abandon':
@@ -212,12 +214,44 @@ def run_session(rnd, w, dumps, kinds, gen_cfg, nacts=14, max_gens=4):
             gi = do_open()
             if gi is not None:
                 some(gi, 0, 3)
-                if rnd.random() < 0.6:
+                if rnd.random() < 0.75:
                     do_drop(avoid=gi if rnd.random() < 0.8 else None)      # an older listing is dropped while this one is being read
                 if rnd.random() < 0.3:
                     do_badopen()            # a request on something that is not a dump, while this listing is in flight
                 if gens[gi][3]:
                     drain(gi)
+    elif scenario == 'finalise':
+        # an older listing is left half read; a newer one is being read when the older one is FINALISED (its last reference
+        # dropped: GeneratorExit runs its cleanup code): the newer listing goes on undisturbed
+        k1 = rnd.choice(['cs', 'cs', rnd.choice(kinds)])
+        a_ = do_open(k1)
+        if a_ is not None:
+            some(a_, 1, 3)
+            b_ = do_open('cs' if rnd.random() < 0.8 else rnd.choice(kinds))
+            if b_ is not None:
+                some(b_, 1, 3)
+                do_drop(avoid=b_)
+                if gens[b_][3] and not failed():
+                    drain(b_)
+    elif scenario == 'peek':
+        # a listing is being read; other requests are MADE (one perhaps on junk) but not read yet; the first listing is
+        # read on to its end, then the others
+        a_ = do_open()
+        if a_ is not None:
+            some(a_, 1, 4)
+            others = []
+            for _ in range(rnd.randrange(1, 3)):
+                if rnd.random() < 0.25:
+                    do_badopen()
+                else:
+                    b_ = do_open()
+                    if b_ is not None:
+                        others.append(b_)
+            if gens[a_][3] and not failed():
+                drain(a_)
+            for b_ in others:
+                if not failed():
+                    drain(b_)
     elif scenario == 'prepared':
         # several requests made back to back BEFORE anything is read (all listings prepared first), then each read to its end
         gis = [g for g in (do_open() for _ in range(rnd.randrange(2, 4))) if g is not None]
